@@ -34,6 +34,7 @@ ASSUMPTIONS = [
 ]
 SHARDS = {"quick": 8, "thorough": 16}
 MIN_REACH = {
+    "line_figures_with_x_as_a_data_variable": {"quick": 20, "thorough": 300},
     "figures_judged": {"quick": 250, "thorough": 4000},
     "lines_matched": {"quick": 1500, "thorough": 20000},
     "style_pairs_compared": {"quick": 1200, "thorough": 15000},
@@ -92,6 +93,7 @@ def cases(ctx):
         c["bins"] = rng.choice([None, 4, 7, "edges"])
         c["density"] = rng.random() < 0.6
         c["palette"] = rng.choice(["viridis", "magma", None])
+        c["xvar"] = mode == "lines" and rng.random() < 0.3
         yield c
 
 
@@ -139,8 +141,26 @@ def build(case):
     data = {"y": (tuple(alld), y)}
     if case["mode"] == "hist":
         data["v"] = (tuple(alld), y * 2.0)
-    if case["mode"] == "lines" and case["dseed"] % 5 == 0:
+    if case["mode"] == "lines" and case["dseed"] % 5 == 0 and not case.get("xvar"):
         data["e"] = (tuple(alld), np.abs(rng.normal(size=shape)) * 0.1)
+    if case.get("xvar"):
+        # x is a data VARIABLE (e.g. a measured time), linked along the dimension 'x'; it has holes of its own, at other
+        # places than y's, and (when that does not empty a whole mapped coordinate) one slice without any x at all
+        tx = np.cumsum(rng.uniform(0.1, 1.0, size=shape), axis=alld.index("x"))
+        tx[rng.random(shape) < 0.15] = np.nan
+        if dims:
+            idx = [slice(None)] * len(alld)
+            for d in dims:
+                idx[alld.index(d)] = int(rng.integers(0, case["sizes"][d]))
+            keep = tx[tuple(idx)].copy()
+            tx[tuple(idx)] = np.nan
+            both = np.isfinite(y) & np.isfinite(tx)
+            for d in dims:
+                ax_other = tuple(k for k in range(len(alld)) if k != alld.index(d))
+                if (np.isfinite(y).any(axis=ax_other) != both.any(axis=ax_other)).any():
+                    tx[tuple(idx)] = keep      # (would empty a whole coordinate: what counts as empty then is not specified)
+                    break
+        data["tx"] = (tuple(alld), tx)
     return xr.Dataset(data, coords=coords)
 
 
@@ -218,7 +238,11 @@ def run_case(ctx, case):
                 if "e" in ds:
                     kw["err"] = "e"
                     kw["err_style"] = case["err_style"] or "bars"
-                fig, axs = xyzpy.infiniplot(ds, "x", "y", show_and_close=False, **kw)
+                if case.get("xvar"):
+                    fig, axs = xyzpy.infiniplot(ds, "tx", "y", xlink="x", show_and_close=False, **kw)
+                    ctx.count("line_figures_with_x_as_a_data_variable")
+                else:
+                    fig, axs = xyzpy.infiniplot(ds, "x", "y", show_and_close=False, **kw)
             elif mode == "aggregate":
                 unm = [d for d in case["dims"] if d not in _flat(mapping.values())]
                 if not unm:
@@ -258,13 +282,16 @@ def run_case(ctx, case):
     # apply explicit orders, then drop coordinates that are entirely empty (per mapped dim, in property order)
     target = "v" if mode == "hist" else "y"
     # n.b. a coordinate counts as empty only if every variable the plot uses (y and the error variable) is empty there
-    work = ds[[target] + (["e"] if (mode == "lines" and "e" in ds) else [])]
-    for d, o in order_of.items():
-        work = work.sel({d: o})
+    work = ds[[target] + (["e"] if (mode == "lines" and "e" in ds) else []) + (["tx"] if "tx" in ds else [])]
+    # (property by property: an explicit order selects along its dimension, then that dimension's empty coordinates go.
+    #  Whether a coordinate emptied only by a LATER property's order still gets an (empty) panel is not specified by the
+    #  property; the sequence used here is the one under which every panel that has data exists)
     for p in ["hue", "color", "marker", "markersize", "markeredgecolor", "linestyle", "linewidth", "col", "row"]:
         d = mapping.get(p)
         if d is None or isinstance(d, tuple):
             continue
+        if d in order_of:
+            work = work.sel({d: order_of[d]})
         work = work.dropna(d, how="all")
     domain = {d: work[d].values.tolist() for d in dims}
     rowd, cold = mapping.get("row"), mapping.get("col")
@@ -326,7 +353,9 @@ def run_case(ctx, case):
                     else:
                         yv = np.asarray(sub["y"].values, dtype=float)
                         xv = xs
-                    m = np.isfinite(yv)
+                        if "tx" in work:
+                            xv = np.asarray(sub["tx"].values, dtype=float)
+                    m = np.isfinite(yv) & np.isfinite(xv)
                     if not m.any():
                         continue
                     if (mode == "lines" and case["join"]):
